@@ -16,6 +16,16 @@ F16_SIG = "tsan-race:n_storage_objects_created_/deleted_"
 TSAN_ENV = {"TSAN_OPTIONS": "halt_on_error=0:exitcode=0:report_signal_unsafe=0:history_size=4"}
 
 
+def sh(cmd, inp=None, timeout=None, env=None):
+    """like vcheck.sh, but a corrupted program may print bytes that are not UTF-8: never let that kill the check"""
+    e = dict(os.environ)
+    if env:
+        e.update(env)
+    p = subprocess.run(cmd, input=inp, stdout=subprocess.PIPE, stderr=subprocess.PIPE, encoding="utf-8", errors="replace",
+                       timeout=timeout, env=e)
+    return p.returncode, p.stdout, p.stderr
+
+
 # ------------------------------------------------------------------ translators
 def translate(ctx):
     """regenerate Generated/Globals.lean and Generated/StorageCfg.lean from the working tree; returns failure strings"""
@@ -85,7 +95,7 @@ def describe(rep):
 # ------------------------------------------------------------------ workload runs
 def run_workload(exe, mode, T, wseed, rounds, timeout=90):
     try:
-        rc, out, err = vcheck.sh([exe, mode, str(T), str(wseed), str(rounds)], timeout=timeout, env=TSAN_ENV)
+        rc, out, err = sh([exe, mode, str(T), str(wseed), str(rounds)], timeout=timeout, env=TSAN_ENV)
     except subprocess.TimeoutExpired:
         return {"rc": -999, "lines": [], "reports": [], "stderr": "TIMEOUT after %ss" % timeout}
     lines = [l for l in out.split("\n") if l]
@@ -287,7 +297,7 @@ def run_sched_batch(ctx, exe, label, cfgname, cases, what):
     """impl (real threads, deterministic hand-off, under TSan) vs Lean machine vs python bookkeeping oracle"""
     text = "cfg %s\n" % cfgname + "".join("\n".join(ops) + "\n" for ops, _ in cases)
     try:
-        rc, out, err = vcheck.sh([exe, "sched"], inp=text, timeout=900, env=TSAN_ENV)
+        rc, out, err = sh([exe, "sched"], inp=text, timeout=300, env=TSAN_ENV)
     except subprocess.TimeoutExpired:
         rc, out, err = -999, "", "TIMEOUT"
     impl = [l for l in out.split("\n") if l]
@@ -327,7 +337,7 @@ def replay_sched(ctx, r):
     ctx.pending = getattr(ctx, "pending", [])
     # expected lines are recomputed by the model only; the oracle needs the generator, so compare impl with the stored expectation
     text = "cfg %s\n" % r.get("cfg", "default") + "\n".join(r["ops"]) + "\n"
-    rc, out, err = vcheck.sh([exe, "sched"], inp=text, timeout=300, env=TSAN_ENV)
+    rc, out, err = sh([exe, "sched"], inp=text, timeout=300, env=TSAN_ENV)
     impl = [l for l in out.split("\n") if l][1:1 + len(r["ops"])]
     exp = r.get("expected") or vcheck.run_model("threads", text)[1:1 + len(r["ops"])]
     ctx.count_case(("replay", tuple(r["ops"])), sample={"impl": impl[:10]})
